@@ -200,11 +200,91 @@ def keyed_attributes(chk, cases, bad, extra):
                                  "rule": "implementation only: KeyedList/KeyedSet attributes of keyed spec items; copy-on-write scalar and element helpers; oracle: receiver and arguments unchanged whether the call returns or raises"}
 
 
+# ---------------------------------------------------------------------------
+# do_not_copy=True classes are in place by documented design and outside the model; a class
+# that merely DERIVES from one (spec or plain subclass, not declared do_not_copy=True itself)
+# is an ordinary copy-on-write class.  Implementation-only probe.
+def dnc_parent_probe(chk, cases, bad, extra):
+    import copy
+    from typing import Dict, List
+
+    from spec_classes import spec_class
+
+    @spec_class(do_not_copy=True)
+    class Registry:
+        label: str = "registry"
+        entries: List[int] = []
+
+    @spec_class
+    class Inner:
+        a: int = 0
+
+    @spec_class
+    class Child(Registry):
+        count: int = 0
+        values: List[int] = []
+        table: Dict[str, int] = {}
+        inner: Inner = Inner()
+
+    @spec_class(bootstrap=True)
+    class GrandChild(Child):
+        extra: str = "x"
+
+    class PlainGrandChild(Child):
+        pass
+
+    def snap(o):
+        st = vars(o)
+        return (list(st), {k: id(v) for k, v in st.items()}, copy.deepcopy(dict(st)))
+    calls = [
+        ("with_count(3)", lambda o: o.with_count(3)),
+        ("with_label('z')", lambda o: o.with_label("z")),
+        ("update_count(4)", lambda o: o.update_count(4)),
+        ("transform_count(+1)", lambda o: o.transform_count(lambda v: v + 1)),
+        ("reset_count()", lambda o: o.reset_count()),
+        ("with_value(5)", lambda o: o.with_value(5)),
+        ("with_value(5, _index=0, _insert=True)", lambda o: o.with_value(5, _index=0, _insert=True)),
+        ("without_value(1)", lambda o: o.without_value(1)),
+        ("transform_value(0, +1)", lambda o: o.transform_value(0, lambda v: v + 1, _by_index=True)),
+        ("with_entry(9)", lambda o: o.with_entry(9)),
+        ("with_table_item('k', 1)", lambda o: o.with_table_item("k", 1)),
+        ("update_inner(a=2)", lambda o: o.update_inner(a=2)),
+        ("transform_inner(a=+1)", lambda o: o.transform_inner(a=lambda v: v + 1)),
+        ("update(count=7)", lambda o: o.update(count=7)),
+        ("transform(count=+1)", lambda o: o.transform(count=lambda v: v + 1)),
+        ("reset()", lambda o: o.reset()),
+        ("with_count('bad')", lambda o: o.with_count("bad")),
+        ("with_value('bad')", lambda o: o.with_value("bad")),
+    ]
+    tried = 0
+    for cls in (Child, GrandChild, PlainGrandChild):
+        for name, call in calls:
+            o = cls(count=1, values=[1, 2], table={"a": 1}, inner=Inner(a=1), entries=[7])
+            before = snap(o)
+            tried += 1
+            outcome, res = "returned", None
+            try:
+                res = call(o)
+            except Exception as e:
+                outcome = "raised " + type(e).__name__
+            after = snap(o)
+            if after != before or res is o:
+                chk.violation(f"copy-on-write helper {name} on {cls.__name__} (derived from a do_not_copy=True class, "
+                              f"not declared so itself; {outcome}) changed or returned the receiver",
+                              {"class": cls.__name__, "call": name, "before": str(before[2]), "after": str(after[2]),
+                               "result_is_receiver": res is o},
+                              sig={"kind": "dnc-parent", "call": name})
+                break
+    extra["dnc_parent_probe"] = {"calls": tried, "rule": "implementation only: spec / eager spec / plain subclasses of a "
+                                 "@spec_class(do_not_copy=True) class are copy-on-write: receiver unchanged, result distinct"}
+
+
 def _post(chk, cases, bad, extra):
     line_injection(chk, cases, bad, extra)
     keyed_attributes(chk, cases, bad, extra)
     import keyed_explore
     keyed_explore.explore(chk, extra, "C01")
+    dnc_parent_probe(chk, cases, bad, extra)
 
 
 def main(tier, replay=None):  # noqa: F811
